@@ -1,26 +1,33 @@
 import ScriggoV.Lemmas.CutSpecFacts
 import ScriggoV.Lemmas.CutRaw
+import ScriggoV.Lemmas.CutTok
 /-! C15 — template text is emitted verbatim except for the documented removals.
 
 Model: `Model/Cut.lean` (`render`): delimiter-level tokenizer for a fixed vocabulary, the token
 loop of `ParseTemplateSource` with `cutSpaces`, the emitter's checked slicing, concatenation.
-Specification: `Spec/CutSpec.lean` (`specRender`): the rule on lines.
+Specification: `Spec/CutSpec.lean`: `specRender`, the rule on lines, and `engineRender`, the rule
+with the two extra line breaks the engine makes before a comment that spans lines or ends the
+file.
 
 What is proved, for every source whose code parts are in the vocabulary (`tokenize … = .ok raws`):
 
-* `output_is_text_minus_cuts_partial` — if no comment spans lines and the file does not end
-  with a comment (`inClass`), the model's output is exactly what the line rule gives; in
-  particular the emitter's slice never faults (`render_no_fault_partial`, which is how the
-  panic of fixes/C15-multiline-statement-cut.md was found: the proof needed "a text that is
-  `last` without a LF is the last token", false of the code before the fix).
-* `FullStatement` (the same without `inClass`) is false of the code today:
-  `not_fullStatement` (a comment that spans lines is counted on the line where it ends).
-* `removed_subset_documented` — the output is the lines of the source, each either as it is or,
-  when its only token is cuttable and its text is blank, without its text; a LF is always the
-  last item of its line.
+* `tokenize_invariant` — the tokenizer's output is well-formed (`WF`: no empty text, no two
+  adjacent texts, …), by an invariant of the scanning loop.
+* `render_multiline_comment_spec` (full strength) — the model's output is `engineRender`: the
+  line rule, a comment that spans lines being counted on the line where it ends and the line
+  before a file-final comment being closed at it. `render_no_fault`: the emitter's slice never
+  faults (how the panic of fixes/C15-multiline-statement-cut.md was found).
+* `output_is_text_minus_cuts_partial` — without such comments (`inClass`) that is exactly the
+  documented rule `specRender`. `FullStatement` (the same for all sources) is false of the code
+  today: `not_fullStatement` (known finding `multiline-comment-counted-on-last-line`).
+* `removed_subset_documented` (full strength) — the output is the lines of the source in order,
+  each either as it is or, when it holds exactly one token, cuttable, and otherwise blanks,
+  without its text; a LF is always the last item of its line. So no non-blank text byte is ever
+  removed, comments that span lines included.
 * `raw_verbatim` — every complete line of a text token after its first LF is output exactly;
-  `endRawIndex_spec` — a raw block ends at the first end statement with its marker; the
-  examples after it show the tokenizer does not look inside a raw block.
+  `endRawIndex_spec` — a raw block ends at the first end statement with its marker.
+* `no_cut_with_middle_text` — what fix C15-cut-middle-text guarantees: a line that holds a
+  text other than its first one is never cut (this is what happens when URL tokens split a text).
 
 The tie to internal/compiler is the correspondence harness go/props/c15. -/
 deriving instance DecidableEq for Except
@@ -28,14 +35,40 @@ deriving instance DecidableEq for Except
 namespace ScriggoV.Cut
 open ScriggoV.CutSpec
 
+/-- **the tokenizer's invariant**: whatever the scanning loop returns is well-formed — no empty
+text token, no two adjacent text tokens, the loop sees a proper prefix of a statement or show
+and the whole of a comment. (It used to be checked at run time inside `tokenize`.) -/
+theorem tokenize_invariant {f : Format} {body : Bytes} {raws : List Raw}
+    (h : tokenize f body = .ok raws) : WF raws = true := scanAll_wf h
+
 theorem tokenize_wf {f : Format} {body : Bytes} {raws : List Raw} (h : tokenize f body = .ok raws) :
-    WF raws = true := by
-  unfold tokenize at h
-  split at h
-  · cases h
-  · split at h
-    · rename_i hw; cases h; exact hw
-    · cases h
+    WF raws = true := tokenize_invariant h
+
+/-- **C15, what the engine does, at full strength.** For every source of the vocabulary the
+output of the parser's line accounting, `cutSpaces` and the emitter is the source's text with
+exactly these removals: syntax, comments, the shebang line, and each line that holds exactly one
+token, cuttable, and otherwise only blanks (its LF included) — where a *line* ends after each LF
+of the text, and also before a comment that spans lines and before a comment that ends the
+file; a line closed by such a comment is removed only if its token is the last thing on it. -/
+theorem render_multiline_comment_spec (f : Format) (src : Bytes) (raws : List Raw)
+    (ht : tokenize f (dropShebang src) = .ok raws) :
+    render f src = .ok (engineRender raws) := by
+  unfold render
+  rw [dropShebang_eq] at ht
+  simp only [ht]
+  rw [renderRaws_eq_engine raws _ _ (tokenize_wf ht) (by split <;> decide)]
+
+/-- **no slice fault**: `Text[Cut.Left : len-Cut.Right]` is in range for every source; the only
+errors of `render` are the tokenizer's -/
+theorem render_no_fault (f : Format) (src : Bytes) : ∀ e, render f src ≠ .error (.fault e) := by
+  intro e h
+  cases ht : tokenize f (dropShebang src) with
+  | ok raws => rw [render_multiline_comment_spec f src raws ht] at h; cases h
+  | error te =>
+    unfold render at h
+    rw [dropShebang_eq] at ht
+    simp only [ht] at h
+    cases h
 
 /-- **C15, main theorem (partial: class `inClass`).** For every source of the vocabulary whose
 comments stay on one line and which does not end with a comment, what the parser's line
@@ -77,33 +110,53 @@ theorem not_fullStatement : ¬ FullStatement := by
   revert h2
   decide +kernel
 
-/-- **no slice fault** on the class: `Text[Cut.Left : len-Cut.Right]` is always in range -/
-theorem render_no_fault_partial (raws : List Raw) (firstLine skipped : Nat) (hwf : WF raws = true)
-    (hcl : inClass raws = true) (hfl : 0 < firstLine) :
-    ∀ e, renderRaws firstLine skipped raws ≠ .error e := by
-  intro e; rw [renderRaws_eq_spec raws _ _ hwf hcl hfl]; intro h; cases h
-
-/-- **only documented bytes are removed.** The output is made of the lines of the source in
-order (`ls.flatten = items raws`: nothing is lost or reordered between lines); each line is
-either output as it is — its text bytes, the values of its shows — or it holds exactly one
-token, which is cuttable, all of its text bytes are a space, a tab, a CR or a LF, and it is
-output without its text; a LF is the last item of its line. -/
+/-- **only documented bytes are removed** (full strength: comments that span lines included).
+The output is made of the lines of the source in order (their concatenation is the source:
+nothing is lost or reordered between lines); each line is either output as it is — its text
+bytes, the values of its shows — or it holds exactly one token, which is cuttable, all of its
+text bytes are a space, a tab, a CR or a LF, and it is output without its text; a LF is the
+last item of its line. -/
 theorem removed_subset_documented (raws : List Raw) (firstLine skipped : Nat)
-    (hwf : WF raws = true) (hcl : inClass raws = true) (hfl : 0 < firstLine) :
-    ∃ ls : List (List Item), ls.flatten = items raws
-      ∧ renderRaws firstLine skipped raws = .ok (ls.flatMap renderLine)
+    (hwf : WF raws = true) (hfl : 0 < firstLine) :
+    ∃ ls : List (Bool × List Item), (ls.map (·.2)).flatten = items raws
+      ∧ renderRaws firstLine skipped raws = .ok (ls.flatMap renderLineE)
       ∧ ∀ l ∈ ls,
-          (renderLine l = keepLine l
-            ∨ (renderLine l = cutLine l ∧ (∃ t, lineToks l = [t] ∧ t.cuttable = true)
-                ∧ ∀ b, Item.byte b ∈ l → isBlank b = true ∨ b = LF))
-          ∧ ∃ body, noLFItems body = true ∧ (l = body ∨ l = body ++ [.byte LF]) := by
-  refine ⟨lines (items raws), lines_flatten _, renderRaws_eq_spec raws _ _ hwf hcl hfl, ?_⟩
+          (renderLineE l = keepLine l.2
+            ∨ (renderLineE l = cutLine l.2 ∧ (∃ t, lineToks l.2 = [t] ∧ t.cuttable = true)
+                ∧ ∀ b, Item.byte b ∈ l.2 → isBlank b = true ∨ b = LF))
+          ∧ ∃ body, noLFItems body = true ∧ (l.2 = body ∨ l.2 = body ++ [.byte LF]) := by
+  refine ⟨splitLinesE (items raws) [], by simpa using splitLinesE_flatten (items raws) [],
+    renderRaws_eq_engine raws _ _ hwf hfl, ?_⟩
   intro l hl
   constructor
-  · rcases renderLine_cases l with h | ⟨h1, h2, h3, _⟩
+  · rcases renderLineE_cases l with h | ⟨h1, h2, h3⟩
     · exact Or.inl h
     · exact Or.inr ⟨h1, h2, fun b hb => lineBlank_mem h3 b hb⟩
-  · exact splitLines_LF_last _ [] rfl l hl
+  · exact splitLinesE_LF_last _ [] rfl l hl
+
+/-- **what happens when something splits a text** (URL tokens, which the model does not
+produce, split a text in the real lexer; so does nothing else). Whatever the token list, a line
+under construction that holds a text other than its first one fails the parser's test
+`p.cutSpacesToken && numTokenInLine == 1`: since fix C15-cut-middle-text such a text counts in
+`numTokenInLine`, so `cutSpaces` — which looks at the first text and at the text after the
+line only — is not called, and the line is output as it is. -/
+theorem no_cut_with_middle_text {ms : PSt} {X : Bytes} {cutL : Nat} {D : Bytes}
+    (inv : Inv ms X cutL D) (t : TextNode) (ht : Node.text t ∈ ms.rest) :
+    (ms.cst && ms.num == 1) = false := by
+  have hnum := inv.hnum
+  have hcst := inv.hcst
+  cases hr : ms.rest with
+  | nil => rw [hr] at ht; cases ht
+  | cons n tl =>
+    cases tl with
+    | nil =>
+      rw [hr] at ht hcst
+      simp only [List.mem_singleton] at ht
+      subst ht
+      simp [hcst, Node.cuttable]
+    | cons m tl' =>
+      rw [hr] at hnum
+      simp [hnum]
 
 /-- **text between its first and last LF is output exactly**, whatever surrounds it — for the
 content of a raw block: everything but the rest of the `{% raw %}` line and the beginning of
